@@ -184,6 +184,47 @@ func c09sched(c *core.Ctx) {
 			vsched.Logf("ok")
 		}})
 	}
+	// two handshakes with the same client id overlap (a client that gave up on a slow
+	// connection attempt and tried again); afterwards both connections end abnormally:
+	// each ending publishes the will of its own CONNECT
+	scs = append(scs, scen{"two overlapping handshakes with one client id, both end abnormally", func() {
+		t := newTD()
+		w := t.connect("W", 0, 65535, false)
+		t.subscribe("W", "#", 2)
+		a, err := t.w.Dial("A")
+		if err != nil {
+			vsched.Failf("harness: dial: %v", err)
+			return
+		}
+		b, err := t.w.Dial("B")
+		if err != nil || vsched.Failed() {
+			return
+		}
+		w.rc.Take()
+		vsched.Mark()
+		a.Conn.Write(refcodec.Encode(ConnectPacket(ConnectOpts{ClientID: "x", Clean: false, KeepAlive: 65535, Will: &Will{"w/a", "will of A", 1, false}})))
+		b.Conn.Write(refcodec.Encode(ConnectPacket(ConnectOpts{ClientID: "x", Clean: false, KeepAlive: 65535, Will: &Will{"w/b", "will of B", 0, false}})))
+		t.w.Settle()
+		if ga, gb := a.Take(), b.Take(); !hasType(ga, refcodec.CONNACK) || !hasType(gb, refcodec.CONNACK) {
+			vsched.Failf("the two CONNECTs were answered by %s and %s", Describe(ga), Describe(gb))
+			return
+		}
+		a.Cut()
+		t.w.Settle()
+		got := w.rc.Take()
+		if wa, wb := publishesOn(got, "w/a"), publishesOn(got, "w/b"); len(wa) != 1 || string(wa[0].Payload) != "will of A" || wa[0].QoS != 1 || len(wb) != 0 {
+			vsched.Failf("connection A (will \"will of A\" on w/a, QoS 1) was cut while B is open; wills published: %s", Describe(got))
+			return
+		}
+		b.Cut()
+		t.w.Settle()
+		got = w.rc.Take()
+		if wa, wb := publishesOn(got, "w/a"), publishesOn(got, "w/b"); len(wb) != 1 || string(wb[0].Payload) != "will of B" || len(wa) != 0 {
+			vsched.Failf("connection B (will \"will of B\" on w/b) was cut; wills published: %s", Describe(got))
+			return
+		}
+		vsched.Logf("ok")
+	}})
 	for _, sc := range scs {
 		if c.Expired() || c.HasViolation() {
 			return
